@@ -937,8 +937,14 @@ impl BuiltInFunction {
                 };
 
                 let result: Primitive = match this {
-                    Primitive::Int(i32) => Primitive::Int(i32.abs()),
-                    Primitive::BigInt(i128) => Primitive::BigInt(i128.abs()),
+                    Primitive::Int(i32) => Primitive::Int(
+                        i32.checked_abs()
+                            .with_context(|| format!("the absolute value of `{i32}` is not an int"))?,
+                    ),
+                    Primitive::BigInt(i128) => Primitive::BigInt(
+                        i128.checked_abs()
+                            .with_context(|| format!("the absolute value of `{i128}` is not a bigint"))?,
+                    ),
                     Primitive::Byte(u8) => Primitive::Byte(*u8),
                     Primitive::Float(f64) => Primitive::Float(f64.abs()),
                     bad => unreachable!("{bad}"),
